@@ -84,7 +84,13 @@ func main() {
 			cfg := vsched.Config{Name: sc.Name, Bound: b, Stall: 120 * time.Second, MaxExec: run.Pick(1500, 60000)}
 			st := vsched.Explore(cfg, body(sc))
 			if st.Infra != "" {
-				ev.Fatal("%s: %s", sc.Name, st.Infra)
+				if st.StallReproduced {
+					run.Violation("call-never-returns-under-schedule", fmt.Sprintf("%s: the same schedule stalled three times: %s", sc.Name, st.Infra), map[string]interface{}{"scenario": sc.Name, "schedule": st.StallSchedule})
+				} else {
+					run.Set("stall_not_reproduced", fmt.Sprintf("%s: %s", sc.Name, st.Infra))
+					run.Capped("an execution stalled once and did not stall again when its schedule was replayed twice (load or nondeterminism outside the scheduler)")
+				}
+				break
 			}
 			if b == bound || len(st.Failures) > 0 {
 				totalExec += st.Executions
